@@ -343,13 +343,13 @@ def extract_case_coq(c, tag):
     return txt
 
 
-def compare_extract(c, m, dis):
-    """m = parsed model answer."""
+def impl_extract(c):
+    """Run Model.extract_1d NOW and copy everything the comparison needs (the
+    model may be edited in place afterwards)."""
     model = c['model']
-    code, mid, box, imat, props, hz, geo = m
-    brief = dict(shape=list(model.shape), mapping=c['mapping'], case=c['case'], method=c['method'],
-                 ellipse=c['ellipse'], p0=c['p0'], p1=c['p1'], merge=c['merge'], hx=c['hs'][0],
-                 hy=c['hs'][1], hz=c['hs'][2], origin=c['org'])
+    snap = dict(shape=tuple(model.shape), names=list(model._def_properties),
+                scales={nm: float(np.max(np.abs(getattr(model, nm)))) for nm in model._def_properties},
+                profile_x=np.array(model.property_x[0, 0, :]).tolist())
     try:
         kw = dict(method=c['method'], p0=c['p0'], merge=c['merge'], return_imat=True)
         if c['p1'] is not None:
@@ -357,39 +357,57 @@ def compare_extract(c, m, dis):
         if c['ellipse'] is not None:
             kw['ellipse'] = c['ellipse']
         lay, im = model.extract_1d(**kw)
-        icode = 0
+        snap.update(code=0, imat=np.array(im), vals={nm: np.array(getattr(lay, nm)[0, 0, :]) for nm in snap['names']},
+                    hz=np.array(lay.grid.h[2]),
+                    geo=[float(lay.grid.h[0][0]), float(lay.grid.h[1][0]), float(lay.grid.origin[0]),
+                         float(lay.grid.origin[1]), float(lay.grid.origin[2])])
     except Exception as e:    # noqa
-        icode = err_code(e)
-        lay = im = None
+        snap.update(code=err_code(e), error=repr(e))
+    return snap
+
+
+def compare_extract(c, m, dis, snap=None, history=None):
+    """m = parsed model answer; snap = impl_extract(c) taken when the Coq text was
+    generated (default: now)."""
+    if snap is None:
+        snap = impl_extract(c)
+    code, mid, box, imat, props, hz, geo = m
+    brief = dict(shape=list(snap['shape']), mapping=c['mapping'], case=c['case'], method=c['method'],
+                 ellipse=c['ellipse'], p0=c['p0'], p1=c['p1'], merge=c['merge'], hx=c['hs'][0],
+                 hy=c['hs'][1], hz=c['hs'][2], origin=c['org'], profile_x_at_first_column=snap['profile_x'])
+    if history is not None:
+        brief['history'] = history
+    icode = snap['code']
     if icode != code:
         dis.append({'what': 'extract_1d error class differs from the model', 'case': brief,
                     'impl': icode, 'model': code})
         return 'err'
     if code:
         return 'err'
-    nx, ny, _ = model.shape
+    nx, ny, _ = snap['shape']
+    im = snap['imat']
     mim = np.array([float(fr(p)) for p in imat]).reshape(nx, ny)
     if im.shape != mim.shape or np.max(np.abs(im - mim)) > 1e-12:
         dis.append({'what': 'extract_1d imat (weights) differs from the model', 'case': brief,
                     'impl': im.tolist(), 'model': mim.tolist()})
         return 'bad'
-    names = model._def_properties
+    names = snap['names']
     if len(props) != len(names):
         dis.append({'what': 'number of extracted properties differs', 'case': brief})
         return 'bad'
     for nm, pv in zip(names, props):
         mv = layer_floats(frl(pv), c['lname'], mid)
-        iv = getattr(lay, nm)[0, 0, :]
+        iv = snap['vals'][nm]
         # scale: largest operand of the weighted sum (values of a log map may cancel)
-        sc = float(np.max(np.abs(getattr(model, nm))))
+        sc = snap['scales'][nm]
         if iv.shape != mv.shape or not all(rel_close(a, b, 1e-10, sc) for a, b in zip(iv, mv)):
-            dis.append({'what': f'extract_1d layer values ({nm}) differ from the model', 'case': brief,
+            dis.append({'what': f'extract_1d layer values ({nm}) differ from the model'
+                        + (' applied to the CURRENT arrays' if history else ''), 'case': brief,
                         'impl': iv.tolist(), 'model': mv.tolist(), 'midpoint': mid})
             return 'bad'
     mhz = np.array([float(x) for x in frl(hz)])
     g = [float(x) for x in frl(geo)]
-    ihz = lay.grid.h[2]
-    igeo = [lay.grid.h[0][0], lay.grid.h[1][0], lay.grid.origin[0], lay.grid.origin[1], lay.grid.origin[2]]
+    ihz, igeo = snap['hz'], snap['geo']
     if ihz.shape != mhz.shape or np.max(np.abs(ihz - mhz)) > 1e-9 or \
             max(abs(a - b) for a, b in zip(igeo, g)) > 1e-9:
         dis.append({'what': 'extract_1d output grid (hz / widths / origin) differs from the model',
@@ -398,6 +416,91 @@ def compare_extract(c, m, dis):
     if mid and c['method'] != 'midpoint':
         return 'fallback'
     return c['method']
+
+
+# ---- two-step histories on ONE Model object: extract, edit, extract again
+EDIT_KINDS = ['view_layer', 'view_layer', 'view_cell', 'view_block', 'setter']
+
+
+def edit_model(rng, model, mapping, kind=None, keep_lateral=False, only=None):
+    """Change values of one defined property.  'view_*': in place through the array
+    the getter returns (model.property_x[:, :, k] = v) -- the setters are NOT involved;
+    'setter': model.property_x = new_array.  Returns a JSON-able description."""
+    names = [nm for nm in model._def_properties if only is None or nm in only]
+    nm = rng.choice(names)
+    arr = getattr(model, nm)
+    pal = PALETTE_LOG if (mapping.startswith('L') and nm.startswith('property')) else PALETTE_POS
+    nx, ny, nz = model.shape
+    kind = kind or rng.choice(EDIT_KINDS[:-1])      # 'setter' only on request (control)
+    if keep_lateral and kind in ('view_cell', 'view_block'):
+        kind = 'view_layer'
+    k = rng.randrange(nz)
+
+    def other(old):
+        return rng.choice([v for v in pal if v != old])
+    if kind == 'view_layer':
+        v = other(arr[0, 0, k])
+        arr[:, :, k] = v
+        return dict(kind=kind, prop=nm, layer=k, value=v)
+    if kind == 'view_cell':
+        i, j = rng.randrange(nx), rng.randrange(ny)
+        v = other(arr[i, j, k])
+        arr[i, j, k] = v
+        return dict(kind=kind, prop=nm, cell=[i, j, k], value=v)
+    if kind == 'view_block':
+        v = other(arr[0, 0, k])
+        i = rng.randrange(nx)
+        arr[i:, :, k:] = v
+        return dict(kind=kind, prop=nm, block=[i, 0, k], value=v)
+    new = np.array(arr)
+    v = other(new[0, 0, k])
+    new[:, :, k] = v
+    setattr(model, nm, new)
+    return dict(kind='setter', prop=nm, layer=k, value=v)
+
+
+def run_extract_histories(ctx, n, dis, hist):
+    """[extract_1d(sel), edit, extract_1d(sel), edit, extract_1d(sel)] on one Model; every
+    answer is compared with the Coq model evaluated on the arrays as they were at that moment."""
+    rng = ctx.rng
+    steps = []          # (case, tag, snap, history so far)
+    txts = []
+    for h in range(n):
+        while True:
+            c = gen_extract_case(rng, ctx.thorough)
+            if c['malformed'] is None:
+                break
+        c['merge'] = False if c['method'] != 'midpoint' else c['merge']
+        history = []
+        for t in range(3):
+            tag = f"h{h}_{t}"
+            txt = extract_case_coq(c, tag)          # arrays as they are NOW
+            snap = impl_extract(c)
+            steps.append((c, tag, snap, list(history)))
+            txts.append(txt)
+            if t < 2:
+                kind = 'setter' if (h % 5 == 4) else None      # every fifth history: setter control
+                history.append(edit_model(rng, c['model'], c['mapping'], kind))
+    per = 21
+    files = [(f"c19_h_{k // per}", HEADER + ''.join(txts[k:k + per])) for k in range(0, len(txts), per)]
+    res = V.coq_eval_many(files)
+    done = 0
+    seen = set()
+    for fi, (name, _) in enumerate(files):
+        rc, out = res[name]
+        if rc != 0:
+            dis.append({'what': 'extract_1d model does not evaluate (history)', 'log': out[-1500:]})
+            continue
+        for j, a in enumerate(V.eval_answers(out)):
+            c, tag, snap, history = steps[fi * per + j]
+            nd = len(dis)
+            compare_extract(c, parse_term(a), dis, snap, history=history or None)
+            done += 1
+            for e in history[-1:]:
+                hist['history:extract:' + e['kind']] = hist.get('history:extract:' + e['kind'], 0) + 1
+                if len(dis) == nd:
+                    seen.add(('hist', e['kind'], e['prop'], c['method']))
+    return done, len(seen)
 
 
 def run_extract(ctx, n, dis, hist):
@@ -529,7 +632,7 @@ def gen_sim_case(rng, thorough, grad, k=0):
         sim = emg3d.Simulation(survey, model, layered=True, layered_opts=lopts, max_workers=1,
                                tqdm_opts=False, gridding='same', verb=-1)
     return dict(hs=hs, org=org, model=model, mapping=mapping, case=case, lname=mapping.startswith('L'),
-                lopts=sim.layered_opts, survey=survey, sim=sim, pattern=pattern, grad=grad)
+                lopts=sim.layered_opts, survey=survey, sim=sim, pattern=pattern, grad=grad, li=li)
 
 
 def sim_brief(c):
@@ -541,7 +644,8 @@ def sim_brief(c):
                 receivers=[[r.__class__.__name__, [float(x) for x in r.coordinates], bool(r.relative)]
                            for r in sv.receivers.values()],
                 frequencies=[float(f) for f in sv.frequencies.values()], observed=c['pattern'],
-                hx=c['hs'][0], hy=c['hs'][1], hz=c['hs'][2], origin=c['org'])
+                hx=c['hs'][0], hy=c['hs'][1], hz=c['hs'][2], origin=c['org'],
+                history=c.get('history'), profile_x_at_first_column=c['model'].property_x[0, 0, :].tolist())
 
 
 def common_defs(c, tag, lg, pw, bw):
@@ -619,6 +723,23 @@ def bipole_direct(src, rec, depth, cond_h, cond_v, eperm, mperm, freq, pos=None)
                           mpermH=mperm, epermV=None, mpermV=None, signal=None, squeeze=True, verb=1)
 
 
+def bipole_noise(src, rec, depth, cond_h, cond_v, eperm, mperm, freq, pos=None):
+    """Reference responses (one call, all frequencies) and their measured sensitivity to a
+    last-bit change of the conductivities: strongly attenuated responses (1e-16 V/m) are sums of
+    filter terms many orders larger, so one ulp in a layer value moves them by up to ~1e-8
+    relative.  Comparisons allow 100 x this measured rounding."""
+    ref = np.atleast_1d(bipole_direct(src, rec, depth, cond_h, cond_v, eperm, mperm, freq, pos))
+    noise = np.zeros(ref.shape)
+    for fac in (1 + 2.0 ** -52, 1 - 2.0 ** -52):
+        alt = np.atleast_1d(bipole_direct(src, rec, depth, cond_h * fac, None if cond_v is None else cond_v / fac,
+                                          eperm, mperm, freq, pos))
+        noise = np.maximum(noise, np.abs(alt - ref))
+        alt = np.atleast_1d(bipole_direct(src, rec, depth, cond_h * fac, None if cond_v is None else cond_v * fac,
+                                          eperm, mperm, freq, pos))
+        noise = np.maximum(noise, np.abs(alt - ref))
+    return ref, noise
+
+
 def desc_to_args(c, d, mid):
     """Model descriptor (exact rationals) -> float arguments of the reference call."""
     i, pos, depth, ch, cv, ep, mp, f = d
@@ -631,17 +752,26 @@ def desc_to_args(c, d, mid):
     return i, pos, np.array([float(x) for x in frl(depth)]), cond_h, cond_v, eperm, mperm, float(fr(f))
 
 
-def compare_sim(c, answers, dis, hist):
-    """answers: per source (rows, extractions).  Returns number of triples compared."""
-    sim, sv = c['sim'], c['survey']
+def impl_compute(c):
+    """sim.compute() NOW; returns a copy of data.synthetic or the exception."""
     with warnings.catch_warnings():
         warnings.simplefilter('ignore')
         try:
-            sim.compute()
-            syn = sim.data.synthetic.data.copy()
+            c['sim'].compute()
+            return c['sim'].data.synthetic.data.copy()
         except Exception as e:    # noqa
-            dis.append({'what': 'Simulation(layered=True).compute raised', 'case': sim_brief(c), 'impl': repr(e)})
-            return 0
+            return e
+
+
+def compare_sim(c, answers, dis, hist, syn=None):
+    """answers: per source (rows, extractions).  syn: responses taken when the Coq
+    text was generated (default: compute now).  Returns number of triples compared."""
+    sim, sv = c['sim'], c['survey']
+    if syn is None:
+        syn = impl_compute(c)
+    if isinstance(syn, Exception):
+        dis.append({'what': 'Simulation(layered=True).compute raised', 'case': sim_brief(c), 'impl': repr(syn)})
+        return 0
     srcs = list(sv.sources.values())
     recs = list(sv.receivers.values())
     n = 0
@@ -658,6 +788,11 @@ def compare_sim(c, answers, dis, hist):
         c['ext'][si] = exts
         for ri, row in enumerate(rows):
             mid = exts[ri][1]
+            # the reference for the row in ONE call with all its frequencies, as the model's
+            # oracle is called: strongly attenuated responses (1e-16) carry the rounding of
+            # much larger filter terms, which depends on the shape of the call
+            fsel = [desc_to_args(c, d, mid)[-1] for (some, d) in row if some]
+            rowref, nref = None, 0
             for fi, (some, d) in enumerate(row):
                 iv = syn[si, ri, fi]
                 n += 1
@@ -670,8 +805,20 @@ def compare_sim(c, answers, dis, hist):
                     continue
                 hist['triple:computed'] = hist.get('triple:computed', 0) + 1
                 i, pos, depth, ch, cv, ep, mp, f = desc_to_args(c, d, mid)
-                ref = complex(bipole_direct(srcs[si], recs[i], depth, ch, cv, ep, mp, f, pos))
-                if not (np.isfinite(iv) and rel_close(iv, ref, 1e-10, 1e-3 * big)):
+                if rowref is None:
+                    rowref, rownoise = bipole_noise(srcs[si], recs[i], depth, ch, cv, ep, mp, np.array(fsel), pos)
+                ref = complex(rowref[nref])
+                slack = 100 * float(rownoise[nref])
+                nref += 1
+                # frequencies are independent (oracle contract): the single-frequency call agrees,
+                # up to the call-shape rounding described above
+                one = complex(bipole_direct(srcs[si], recs[i], depth, ch, cv, ep, mp, f, pos))
+                if not (rel_close(one, ref, 1e-6, 1e-3 * big) or abs(one - ref) <= slack):
+                    dis.append({'what': 'empymod.bipole: single-frequency call differs from the multi-frequency call '
+                                '(oracle contract bipole_pointwise)', 'case': sim_brief(c), 'triple': [si, ri, fi],
+                                'impl': str(ref), 'model': str(one)})
+                    return n
+                if not (np.isfinite(iv) and (rel_close(iv, ref, 1e-10, 1e-3 * big) or abs(iv - ref) <= slack)):
                     dis.append({'what': 'layered response differs from empymod.bipole of the model\'s layers',
                                 'case': sim_brief(c), 'triple': [si, ri, fi], 'impl': str(iv), 'model': str(ref),
                                 'layers': dict(position=pos, depth=depth.tolist(), cond_h=ch.tolist(),
@@ -828,6 +975,40 @@ def run_sims(ctx, n, ngrad, dis, hist):
     cases = [gen_sim_case(rng, ctx.thorough, grad=(k < ngrad), k=k) for k in range(n)]
     per = 4
     files = []
+    # two-step histories on ONE Simulation / Model: [compute (+ misfit, gradient), edit the model
+    # (in place through the array views; every 4th one through the setter), clean('computed')];
+    # the ordinary comparison below is then the second compute / misfit / gradient
+    pre = {}
+    for k, c in enumerate(cases):
+        if k % 2 == 0:
+            continue
+        txt = sim_case_coq(c, f"p{k}")              # arrays as they are NOW
+        syn = impl_compute(c)
+        ops = ['compute']
+        if c['grad'] and not isinstance(syn, Exception):
+            with warnings.catch_warnings():
+                warnings.simplefilter('ignore')
+                try:
+                    _ = c['sim'].misfit
+                    _ = c['sim'].gradient
+                    ops += ['misfit', 'gradient']
+                except Exception:    # noqa -- reported by the second step
+                    pass
+        pre[k] = (txt, syn)
+        single = c['lopts']['method'] in ('midpoint', 'source', 'receiver')
+        keep = c['li'] and not single
+        if k % 8 == 7:          # control: the same kind of update through the setter
+            ed = [edit_model(rng, c['model'], c['mapping'], 'setter', only=('property_x', 'property_z'))]
+        else:                   # a whole layer of a conductivity-like property, then anything
+            ed = [edit_model(rng, c['model'], c['mapping'], 'view_layer', only=('property_x', 'property_z'))]
+            if rng.random() < 0.5:
+                ed.append(edit_model(rng, c['model'], c['mapping'], None, keep_lateral=keep))
+        c['sim'].clean('computed')
+        c['history'] = ops + ed + ["clean('computed')", 'compute' + (', misfit, gradient' if c['grad'] else '')]
+    pk = sorted(pre)
+    for f0 in range(0, len(pk), per):
+        files.append((f"c19_p_{f0 // per}", HEADER + ''.join(pre[k][0] for k in pk[f0:f0 + per])))
+    npre = len(files)
     for f0 in range(0, n, per):
         txt = HEADER
         for k in range(f0, min(n, f0 + per)):
@@ -837,6 +1018,26 @@ def run_sims(ctx, n, ngrad, dis, hist):
     triples = 0
     seen = set()
     okcases = []
+    # first steps of the histories (responses copied before the edit)
+    for fi, (name, _) in enumerate(files[:npre]):
+        rc, out = res[name]
+        if rc != 0:
+            dis.append({'what': 'layered_fwd model does not evaluate (history, first step)', 'log': out[-1500:]})
+            continue
+        ans = [parse_term(a) for a in V.eval_answers(out)]
+        pos = 0
+        for k in pk[fi * per:fi * per + per]:
+            c = cases[k]
+            ns = len(c['survey'].sources)
+            a = [(ans[pos + 3 * s], ans[pos + 3 * s + 1], ans[pos + 3 * s + 2]) for s in range(ns)]
+            pos += 3 * ns
+            hsave, c['history'] = c.get('history'), ['compute (first step, before any edit)']
+            triples += compare_sim(c, a, dis, hist, syn=pre[k][1])
+            c['history'] = hsave
+            for e in hsave:
+                if isinstance(e, dict):
+                    hist['history:sim:' + e['kind']] = hist.get('history:sim:' + e['kind'], 0) + 1
+    files = files[npre:]
     for fi, (name, _) in enumerate(files):
         rc, out = res[name]
         if rc != 0:
@@ -893,7 +1094,10 @@ def correspondence(ctx):
     ns = 72 if ctx.thorough else 24
     ngr = 20 if ctx.thorough else 6
     done, dx, xs = run_extract(ctx, nx, dis, hist)
+    hdone, hx = run_extract_histories(ctx, 60 if ctx.thorough else 20, dis, hist)
     nsim, triples, ng, dsim, ss = run_sims(ctx, ns, ngr, dis, hist)
+    done += hdone
+    dx += hx
     return {
         'evaluations': done + triples + ng,
         'distinct_nontrivial': dx + dsim,
@@ -905,7 +1109,12 @@ def correspondence(ctx):
                 "receivers, 1-2 frequencies, five methods, observed none/full/gaps/all-NaN receiver/all-NaN "
                 "source; every triple compared with one empymod.bipole call built from the model's descriptor. "
                 "(C) gradient cases: model layered_grad with a table oracle of empymod responses vs "
-                "_compute_1d(gradient=True) and Simulation.gradient.",
+                "_compute_1d(gradient=True) and Simulation.gradient. (H) two-step histories on ONE object: "
+                "[extract_1d(sel), edit, extract_1d(sel), edit, extract_1d(sel)] and, for every other "
+                "simulation, [compute(+misfit, gradient), edit(s), clean('computed'), compute(+misfit, "
+                "gradient)]; edits = in-place writes through the property getters' arrays (layer / cell / "
+                "block of property_x/y/z, mu_r, epsilon_r) or, as control, the setters; every answer is "
+                "compared with the model evaluated on the arrays as they are at that moment.",
         'samples': xs + ss,
         'traces_validated_against_impl': done + nsim + ng,
         'histogram': hist,
@@ -925,8 +1134,8 @@ def expand_layers(lay, nodes_z):
 def search_case(seed, thorough=False, skip=()):
     """Property checked directly on the implementation, laterally invariant model.
     Includes relative receivers, log-map profiles with stored value -1 on top,
-    merge=True, and the gradient with merge=True.  Three blocks ('resp', 'extract',
-    'grad'); a block named in [skip] does not report (used to look for further,
+    merge=True, and the gradient with merge=True.  Four blocks ('resp', 'extract',
+    'grad', 'hist' = two-step histories on the same objects); a block named in [skip] does not report (used to look for further,
     independent failures once one block has failed)."""
     import random
     import emg3d
@@ -965,10 +1174,13 @@ def search_case(seed, thorough=False, skip=()):
     obs = survey.data.observed.data
     fin = np.isfinite(obs)
     ref = np.full(obs.shape, np.nan + 1j * np.nan)
-    for si, ri, fi in itertools.product(range(len(srcs)), range(len(recs)), range(len(freqs))):
-        if fin[si, ri, fi]:
+    noise = np.zeros(obs.shape)
+    for si, ri in itertools.product(range(len(srcs)), range(len(recs))):
+        f = fin[si, ri, :]
+        if f.any():
             # receiver at its ABSOLUTE position (source centre + offset when relative)
-            ref[si, ri, fi] = bipole_direct(srcs[si], recs[ri], depth, ch, cv, ep, mp, freqs[fi])
+            ref[si, ri, f], noise[si, ri, f] = bipole_noise(srcs[si], recs[ri], depth, ch, cv, ep, mp,
+                                                            np.array(freqs)[f])
     opts = [{'method': 'midpoint'}, {'method': 'source'}, {'method': 'receiver', 'merge': True},
             {'method': 'midpoint', 'merge': True}]
     for m in ('prism', 'cylinder'):
@@ -989,7 +1201,8 @@ def search_case(seed, thorough=False, skip=()):
             return dict(base, block='resp', signature='layered mode: computed triples are not exactly those with finite '
                         'observed data', layered_opts=lo, observed_finite=fin.tolist(),
                         computed=(~np.isnan(syn)).tolist())
-        bad = [k for k in zip(*np.nonzero(fin)) if not rel_close(syn[k], ref[k], 1e-8)]
+        bad = [k for k in zip(*np.nonzero(fin))
+               if not (rel_close(syn[k], ref[k], 1e-8) or abs(syn[k] - ref[k]) <= 100 * noise[k])]
         if bad and 'resp' not in skip:
             k = tuple(int(x) for x in bad[0])
             return dict(base, block='resp', signature='layered response on a laterally invariant model differs from '
@@ -1061,6 +1274,84 @@ def search_case(seed, thorough=False, skip=()):
                                 'change under a uniform perturbation of the layer',
                                 layered_opts=dict(sim.layered_opts), component='hv'[comp // 2], layer=k,
                                 observed_value=float(got), required=float(req))
+    return search_history(rng, base, model, mapping, vti, grid, hs, org, survey, sims, opts, skip)
+
+
+def search_history(rng, base, model, mapping, vti, grid, hs, org, survey, sims, opts, skip):
+    """Block 'hist': the SAME Model / Simulation objects after the model was edited.
+    [extract_1d(sel); compute (done above)] -> in-place edit of two layers through the arrays the
+    getters return (the model stays laterally invariant) -> [extract_1d(sel); clean('computed');
+    compute; misfit] must describe the CURRENT layering; then the same with a setter update."""
+    if 'hist' in skip:
+        return None
+    srcs, recs = list(survey.sources.values()), list(survey.receivers.values())
+    freqs = [float(f) for f in survey.frequencies.values()]
+    obs = survey.data.observed.data
+    fin = np.isfinite(obs)
+    sel = dict(method=rng.choice(['midpoint', 'prism', 'cylinder']), p0=rand_point(rng, grid, hs, org),
+               p1=rand_point(rng, grid, hs, org), ellipse=rand_ellipse(rng, hs))
+    model.extract_1d(**sel)                       # first request for this selection
+    pal = PALETTE_LOG if mapping.startswith('L') else PALETTE_POS
+    nz = model.shape[2]
+    for step in ('view', 'setter'):
+        edits = []
+        for k in rng.sample(range(nz), min(2, nz)):
+            for nm in (['property_x', 'property_z'] if vti else ['property_x']):
+                arr = getattr(model, nm)
+                v = rng.choice([x for x in pal if x != arr[0, 0, k]])
+                if step == 'view':
+                    arr[:, :, k] = v              # model.property_x[:, :, k] = v
+                else:
+                    new = np.array(arr)
+                    new[:, :, k] = v
+                    setattr(model, nm, new)       # model.property_x = new
+                edits.append(dict(prop=nm, layer=k, value=v, how=step))
+        b2 = dict(base, block='hist', history=['extract_1d(sel)', 'compute'] + edits
+                  + ['extract_1d(sel)', "clean('computed')", 'compute', 'misfit'], selection=sel,
+                  profile_x_now=model.property_x[0, 0, :].tolist())
+        lay = model.extract_1d(**sel)
+        for nm in (model._def_properties if 'hist_x' not in skip else ()):
+            got, req = getattr(lay, nm)[0, 0, :], getattr(model, nm)[0, 0, :]
+            if got.shape != req.shape or not all(
+                    rel_close(a, b, 1e-10, float(np.max(np.abs(req)))) for a, b in zip(got, req)):
+                return dict(b2, block='hist_x', signature='extract_1d after a model update returns layers that are not the '
+                            "model's current profile (" + step + ' update)', prop=nm,
+                            observed_value=got.tolist(), required=req.tolist())
+        bw = model.map.backward
+        ch = bw(model.property_x[0, 0, :])
+        cv = bw(model.property_z[0, 0, :]) if vti else None
+        ep = model.epsilon_r[0, 0, :] if model.epsilon_r is not None else None
+        mp = model.mu_r[0, 0, :] if model.mu_r is not None else None
+        depth = grid.nodes_z[1:-1]
+        ref = np.full(obs.shape, np.nan + 1j * np.nan)
+        noise = np.zeros(obs.shape)
+        for si, ri in itertools.product(range(len(srcs)), range(len(recs))):
+            f = fin[si, ri, :]
+            if f.any():
+                ref[si, ri, f], noise[si, ri, f] = bipole_noise(srcs[si], recs[ri], depth, ch, cv, ep, mp,
+                                                                np.array(freqs)[f])
+        for q in rng.sample(range(len(sims)), 3):
+            sim = sims[q]
+            with warnings.catch_warnings():
+                warnings.simplefilter('ignore')
+                sim.clean('computed')
+                sim.compute()
+                syn = sim.data.synthetic.data
+                phi = float(sim.misfit)
+            bad = [k for k in zip(*np.nonzero(fin))
+                   if not (rel_close(syn[k], ref[k], 1e-8) or abs(syn[k] - ref[k]) <= 100 * noise[k])]
+            if bad:
+                k = tuple(int(x) for x in bad[0])
+                return dict(b2, signature='layered response after a model update differs from empymod.bipole of '
+                            'the current layering (' + step + ' update)', layered_opts=opts[q], triple=k,
+                            observed_value=str(syn[k]), required=str(ref[k]))
+            r = (ref - obs)[fin]
+            w = sim.data.weights.data[fin]
+            req = float(np.sum(w * (r.conj() * r)).real / 2)
+            if not rel_close(phi, req, 1e-6):
+                return dict(b2, signature='layered misfit after a model update is not the misfit of the current '
+                            'layering (' + step + ' update)', layered_opts=opts[q], observed_value=phi,
+                            required=req)
     return None
 
 
@@ -1071,7 +1362,7 @@ def search(ctx, broken):
     for _ in range(n):
         seed = rng.randint(0, 2 ** 40)
         skip = set()
-        for _ in range(3):        # after a failing block, look for independent failures in the others
+        for _ in range(5):        # after a failing block, look for independent failures in the others
             try:
                 h = search_case(seed, ctx.thorough, tuple(sorted(skip)))
             except Exception as e:    # noqa -- a valid problem must not raise
